@@ -44,14 +44,16 @@ def run_suite(acc, focus, files, k_filter=None):
             if max(irr) > 1:
                 bad.append('level jump %r between edge neighbours' % (irr, ))
             for b in bad[:2]:
-                acc.violation('mesh-invariant(suite):' + b.split(':')[0].split(' %')[0][:50].replace(' ', '-'), b, wit)
+                from .meshexplore import mech
+                acc.violation('mesh-invariant(suite):' + mech(b), b, wit)
         else:
             ref = rm.RefMesh.from_leaves(rm.leaf_dict(mesh).items(), mesh.glue_space, (ts[0], ts[-1], xs[0], xs[-1]))
             leaves = list(mesh.leaf_elements)
             bad, n_edges, stats = rm.check_neighbours(mesh, ref, leaves if n <= 200 else leaves[-40:])
             acc.count('edges_checked', n_edges)
             for b in bad[:2]:
-                acc.violation('neighbours(suite):' + b.split(' at ')[0].split(':')[0][:50].replace(' ', '-'), b, wit)
+                from .meshexplore import mech
+                acc.violation('neighbours(suite):' + mech(b), b, wit)
         acc.case(None, 'suite:mesh-op')
 
     def bilform_after(mon, token, args, kwargs, result):
